@@ -395,4 +395,588 @@ theorem shipRefs_ok : (l : List VRef) → (∀ r ∈ l, typedRef r = true) →
     have h2 := shipRefs_ok rs (fun x hx => h x (by simp [hx]))
     simp [shipRefs, h1, h2]
 
+
+/-! ### Measurement -/
+
+theorem measurement_rows_sound : codec_measurement.all (flatRowOK measurementCodec) = true := by decide
+
+theorem measurement_fields :
+    shippedField measurementCodec "Database" = true ∧ shippedField measurementCodec "RetentionPolicy" = true ∧
+    shippedField measurementCodec "Name" = true ∧ shippedField measurementCodec "Regex" = true ∧
+    shippedField measurementCodec "IsTarget" = true ∧ shippedField measurementCodec "SystemIterator" = true ∧
+    unshippedField measurementCodec "IsSystemStatement" (.bool false) = true ∧
+    unshippedField measurementCodec "Alias" (.str []) = true ∧
+    shippedField measurementCodec "IsTimeSorted" = true ∧ shippedField measurementCodec "IndexRelation" = true ∧
+    shippedField measurementCodec "ObsOptions" = true ∧ shippedField measurementCodec "EngineType" = true ∧
+    unshippedField measurementCodec "MstType" (.str []) = true := by decide
+
+/-- number of declared EngineType constants -/
+def engineTypeCount : Int :=
+  match codec_measurement.find? (fun r => r.field == "EngineType") with
+  | some r => (match r.goT.range? with | some (_, hi) => hi | none => 0)
+  | none => 0
+
+def typedMst (m : Mst) : Bool :=
+  utf8Valid m.db && utf8Valid m.rp && utf8Valid m.name && utf8Valid m.sysIter &&
+  (match m.regex with
+   | none => true
+   | some p => p != [] && utf8Valid p) &&
+  decide (0 ≤ m.engineType) && decide (m.engineType < engineTypeCount)
+
+/-- **a measurement of `opt.Sources` comes back with every field the store reads** (database,
+retention policy, name or regex, system iterator, engine type, index relation, OBS options, the
+two flags); `Alias`, `IsSystemStatement`, `MstType` are not shipped. The payloads behind
+`IndexRelation` / `ObsOptions` travel by codecs of their own (`encodeIndexRelation`: coverage table
+and harness; `encodeObsOptions`: `obsOptions_rows_sound`). -/
+theorem measurement_roundtrip (m : Mst) (ht : typedMst m = true) : shipMst m = some (normMst m) := by
+  simp only [typedMst, Bool.and_eq_true, decide_eq_true_eq] at ht
+  obtain ⟨⟨⟨⟨⟨⟨h1, h2⟩, h3⟩, h4⟩, h5⟩, h6⟩, h7⟩ := ht
+  have hty : typedObj measurementCodec (mstObj m) = true := by
+    have h3c : engineTypeCount = 3 := by decide
+    rw [h3c] at h7
+    cases hr : m.regex with
+    | none =>
+      simp [typedObj, measurementCodec, codec_measurement, typedS, GoT.range?, mstObj, h1, h2, h3, h4, h6, h7, hr]
+    | some p =>
+      rw [hr] at h5
+      simp only [Bool.and_eq_true, bne_iff_ne, ne_eq] at h5
+      simp [typedObj, measurementCodec, codec_measurement, typedS, GoT.range?, mstObj, h1, h2, h3, h4, h5.1, h5.2, h6, h7, hr]
+  have h := shipFlat_ok measurementCodec (mstObj m) measurement_rows_sound (typedObj_spec _ _ hty)
+  obtain ⟨f1, f2, f3, f4, f5, f6, f7, f8, f9, f10, f11, f12, f13⟩ := measurement_fields
+  unfold shipMst
+  rw [h]
+  dsimp only
+  unfold mstOfList
+  rw [lookup_shipped _ _ _ f1, lookup_shipped _ _ _ f2, lookup_shipped _ _ _ f3, lookup_shipped _ _ _ f4,
+    lookup_shipped _ _ _ f5, lookup_shipped _ _ _ f6, lookup_unshipped _ _ _ _ f7, lookup_unshipped _ _ _ _ f8,
+    lookup_shipped _ _ _ f9, lookup_shipped _ _ _ f10, lookup_shipped _ _ _ f11, lookup_shipped _ _ _ f12,
+    lookup_unshipped _ _ _ _ f13]
+  simp [mstObj, normMst]
+
+theorem obsOptions_rows_sound :
+    codec_obsOptions.all (flatRowOK ⟨codec_obsOptions, tags_ObsOptions, desc_ObsOptions⟩) = true := by decide
+
+def typedSrc : Source → Bool
+  | .mst m => typedMst m
+  | .otherSrc => false        -- the planner hands measurements only; anything else is skipped by the encoder
+
+theorem shipSrcList_ok : (l : List Source) → (∀ s ∈ l, typedSrc s = true) →
+    shipSrcList l = some (l.map normSrc)
+  | [], _ => rfl
+  | .otherSrc :: rs, h => by
+    have := h .otherSrc (by simp)
+    simp [typedSrc] at this
+  | .mst m :: rs, h => by
+    have h1 := measurement_roundtrip m (by simpa [typedSrc] using h (.mst m) (by simp))
+    have h2 := shipSrcList_ok rs (fun x hx => h x (by simp [hx]))
+    simp [shipSrcList, h1, h2, normSrc]
+
+
+/-! ## the options struct -/
+
+/-- the one encoding of FillValue the model knows to be what it is: float64 as it is, int64 through float64(v) -/
+def fillCases : List (String × Bool) := [("float64", false), ("int64", true)]
+
+/-- what reaches the store of a FillValue -/
+def fillShipped : FillV → UInt64
+  | .f64 b => b
+  | .i64 v => bitsOfInt v
+  | _ => 0
+
+/-- how a field of the options struct must be written and read for its value to come back -/
+def optKindOK (g : GoT) (pt : PT) (rep : Bool) (e : EncK) (d : DecK) : Bool :=
+  match g with
+  | .strs => pt == .string && rep && decide (e = .id) && decide (d = .id)
+  | .keyset => pt == .mapStringBool && decide (e = .helper "StructToBool" .none) && decide (d = .helper "BoolToStruct" .none)
+  | .expr => pt == .string && !rep && decide (e = .text .nonNil ".String") && decide (d = .parse .nonEmpty "influxql.ParseExpr")
+  | .loc => pt == .string && !rep && decide (e = .text .nonNil ".String") && decide (d = .parse .nonEmpty "time.LoadLocation")
+  | .sortFields => pt == .string && !rep && decide (e = .text .lenPos ".String") && decide (d = .parse .nonEmpty "influxql.ParseSortFields")
+  | .varRefs => pt == .msg "VarRef" && rep && decide (e = .helper "encodeVarRefs" .none) && decide (d = .helper "decodeVarRefs" .none)
+  | .interval => pt == .msg "Interval" && !rep && decide (e = .helper "encodeInterval" .none) && decide (d = .helper "decodeInterval" .none)
+  | .sources => pt == .msg "Measurement" && rep &&
+      decide (e = .srcLoop "influxql.Measurement" "encodeMeasurement") && decide (d = .srcLoop "decodeMeasurement")
+  | .iface => pt == .double && !rep && decide (e = .ifaceSwitch fillCases) && decide (d = .id)
+  | g => !rep && scalarOK g pt e d
+
+/-- the values of a field the theorem ranges over. For the three expression fields, the sort
+fields and the location this is the statement that the text is read back as the value — the
+expression theorem (`expr_roundtrip_partial`) and `sorts_roundtrip` give it at token level. -/
+def typedV (g : GoT) (v : Val) : Bool :=
+  match g, v with
+  | .strs, .strs l => allValid l
+  | .keyset, .keys l => allValid l
+  | .expr, .expr none => true
+  | .expr, .expr (some e) => render e != [] && decide (parseExprChars (render e) = some e)
+  | .loc, .loc none => true
+  | .loc, .loc (some l) => l.name != [] && decide (loadLocation l.name = some l)
+  | .sortFields, .sorts l => l.isEmpty || (renderSorts l != [] && decide (parseSortFieldsChars (renderSorts l) = some l))
+  | .varRefs, .refs l => l.all typedRef
+  | .interval, .interval d o => inT .dur d && inT .dur o
+  | .sources, .sources none => true
+  | .sources, .sources (some l) => !l.isEmpty && l.all typedSrc
+  | .iface, .fill _ => true
+  | g, .sc s => typedS g s
+  | _, _ => false
+
+/-- the value the store holds after decoding -/
+def expectV : Val → Val
+  | .fill f => .fill (.f64 (fillShipped f))
+  | v => normV v
+
+def shipV (g : GoT) (pt : PT) (e : EncK) (d : DecK) (v : Val) : Option Val :=
+  match encV e pt v with
+  | none => none
+  | some w => decV g d w
+
+theorem encS_not_dbl (k : EncK) (s : SVal) (w : WS) (h : encS k s = some w) : ∀ b, w ≠ .dbl b := by
+  intro b hb
+  subst hb
+  unfold encS at h
+  split at h <;> simp at h
+
+theorem protoS_not_dbl (pt : PT) (w w' : WS) (hw : ∀ b, w ≠ .dbl b) (h : protoS pt w = some w') : ∀ b, w' ≠ .dbl b := by
+  unfold protoS at h
+  split at h
+  · split at h <;> simp at h
+    subst h; intro b; simp
+  · simp at h
+  · simp at h; subst h; exact hw
+
+theorem decV_sc (g : GoT) (d : DecK) (w : WS) (hw : ∀ b, w ≠ .dbl b) : decV g d (.sc w) = (decS d w).map .sc := by
+  cases w <;> first | rfl | (rename_i b; exact absurd rfl (hw b))
+
+theorem shipV_scalar (g : GoT) (pt : PT) (e : EncK) (d : DecK) (s : SVal)
+    (hk : scalarOK g pt e d = true) (ht : typedS g s = true) : shipV g pt e d (.sc s) = some (.sc s) := by
+  have h := scalar_rt g pt e d s hk ht
+  unfold shipS at h
+  unfold shipV encV
+  cases h1 : encS e s with
+  | none => simp [h1] at h
+  | some w =>
+    simp only [h1] at h ⊢
+    cases h2 : protoS pt w with
+    | none => simp [h2] at h
+    | some w' =>
+      simp only [h2] at h
+      have hnd := protoS_not_dbl pt w w' (encS_not_dbl e s w h1) h2
+      simp [decV_sc g d w' hnd, h]
+
+
+theorem all_typedRef (l : List VRef) (h : l.all typedRef = true) : ∀ r ∈ l, typedRef r = true :=
+  fun r hr => (List.all_eq_true.mp h) r hr
+
+theorem all_typedSrc (l : List Source) (h : l.all typedSrc = true) : ∀ s ∈ l, typedSrc s = true :=
+  fun r hr => (List.all_eq_true.mp h) r hr
+
+theorem typedS_strs (s : SVal) : typedS .strs s = false := by cases s <;> rfl
+theorem typedS_keyset (s : SVal) : typedS .keyset s = false := by cases s <;> rfl
+theorem typedS_expr (s : SVal) : typedS .expr s = false := by cases s <;> rfl
+theorem typedS_loc (s : SVal) : typedS .loc s = false := by cases s <;> rfl
+theorem typedS_sortFields (s : SVal) : typedS .sortFields s = false := by cases s <;> rfl
+theorem typedS_varRefs (s : SVal) : typedS .varRefs s = false := by cases s <;> rfl
+theorem typedS_interval (s : SVal) : typedS .interval s = false := by cases s <;> rfl
+theorem typedS_sources (s : SVal) : typedS .sources s = false := by cases s <;> rfl
+theorem typedS_iface (s : SVal) : typedS .iface s = false := by cases s <;> rfl
+
+/-- **one field through encoder, protobuf and decoder**: written and read as `optKindOK` allows,
+a value of the field's domain arrives as `expectV` of itself. -/
+theorem kind_rt (g : GoT) (pt : PT) (rep : Bool) (e : EncK) (d : DecK) (v : Val)
+    (hk : optKindOK g pt rep e d = true) (ht : typedV g v = true) : shipV g pt e d v = some (expectV v) := by
+  unfold optKindOK at hk
+  split at hk
+  · -- []string
+    simp only [Bool.and_eq_true, decide_eq_true_eq] at hk
+    obtain ⟨⟨_, he⟩, hd⟩ := hk
+    subst he hd
+    cases v with
+    | strs l =>
+      simp [typedV] at ht
+      simp [shipV, encV, decV, ht, expectV, normV]
+    | sc s => simp [typedV, typedS_strs] at ht
+    | _ => simp [typedV] at ht
+  · -- map[string]struct{}
+    simp only [Bool.and_eq_true, decide_eq_true_eq] at hk
+    obtain ⟨⟨_, he⟩, hd⟩ := hk
+    subst he hd
+    cases v with
+    | keys l =>
+      simp [typedV] at ht
+      simp [shipV, encV, decV, ht, expectV, normV]
+    | sc s => simp [typedV, typedS_keyset] at ht
+    | _ => simp [typedV] at ht
+  · -- influxql.Expr
+    simp only [Bool.and_eq_true, decide_eq_true_eq] at hk
+    obtain ⟨⟨_, he⟩, hd⟩ := hk
+    subst he hd
+    cases v with
+    | expr x =>
+      cases x with
+      | none => simp [shipV, encV, decV, expectV, normV]
+      | some ex =>
+        simp [typedV] at ht
+        obtain ⟨hne, hrt⟩ := ht
+        cases hr : render ex with
+        | nil => exact absurd hr hne
+        | cons c t =>
+          rw [hr] at hrt
+          simp [shipV, encV, decV, hr, hrt, expectV, normV]
+    | sc s => simp [typedV, typedS_expr] at ht
+    | _ => simp [typedV] at ht
+  · -- *time.Location
+    simp only [Bool.and_eq_true, decide_eq_true_eq] at hk
+    obtain ⟨⟨_, he⟩, hd⟩ := hk
+    subst he hd
+    cases v with
+    | loc x =>
+      cases x with
+      | none => simp [shipV, encV, decV, expectV, normV]
+      | some l =>
+        simp [typedV] at ht
+        obtain ⟨hne, hrt⟩ := ht
+        cases hr : l.name with
+        | nil => exact absurd hr hne
+        | cons c t =>
+          rw [hr] at hrt
+          simp [shipV, encV, decV, hr, hrt, expectV, normV]
+    | sc s => simp [typedV, typedS_loc] at ht
+    | _ => simp [typedV] at ht
+  · -- influxql.SortFields
+    simp only [Bool.and_eq_true, decide_eq_true_eq] at hk
+    obtain ⟨⟨_, he⟩, hd⟩ := hk
+    subst he hd
+    cases v with
+    | sorts l =>
+      simp [typedV] at ht
+      rcases ht with hl | ⟨hne, hrt⟩
+      · subst hl
+        simp [shipV, encV, decV, renderSorts, expectV, normV]
+      · cases hr : renderSorts l with
+        | nil => exact absurd hr hne
+        | cons c t =>
+          rw [hr] at hrt
+          simp [shipV, encV, decV, hr, hrt, expectV, normV]
+    | sc s => simp [typedV, typedS_sortFields] at ht
+    | _ => simp [typedV] at ht
+  · -- []influxql.VarRef
+    simp only [Bool.and_eq_true, decide_eq_true_eq] at hk
+    obtain ⟨⟨_, he⟩, hd⟩ := hk
+    subst he hd
+    cases v with
+    | refs l =>
+      simp [typedV] at ht
+      have := shipRefs_ok l (fun r hr => ht r hr)
+      simp [shipV, encV, decV, this, expectV, normV]
+    | sc s => simp [typedV, typedS_varRefs] at ht
+    | _ => simp [typedV] at ht
+  · -- hybridqp.Interval
+    simp only [Bool.and_eq_true, decide_eq_true_eq] at hk
+    obtain ⟨⟨_, he⟩, hd⟩ := hk
+    subst he hd
+    cases v with
+    | interval dd oo =>
+      simp [typedV] at ht
+      have := interval_roundtrip dd oo ht.1 ht.2
+      simp [shipV, encV, decV, this, expectV, normV]
+    | sc s => simp [typedV, typedS_interval] at ht
+    | _ => simp [typedV] at ht
+  · -- []influxql.Source
+    simp only [Bool.and_eq_true, decide_eq_true_eq] at hk
+    obtain ⟨⟨_, he⟩, hd⟩ := hk
+    subst he hd
+    cases v with
+    | sources x =>
+      cases x with
+      | none => simp [shipV, encV, decV, expectV, normV]
+      | some l =>
+        simp [typedV] at ht
+        obtain ⟨hne, hall⟩ := ht
+        have := shipSrcList_ok l (fun s hs => hall s hs)
+        cases l with
+        | nil => simp at hne
+        | cons s rest => simp [shipV, encV, decV, this, expectV, normV]
+    | sc s => simp [typedV, typedS_sources] at ht
+    | _ => simp [typedV] at ht
+  · -- interface{} (FillValue)
+    simp only [Bool.and_eq_true, decide_eq_true_eq] at hk
+    obtain ⟨⟨_, he⟩, hd⟩ := hk
+    subst he hd
+    cases v with
+    | fill f =>
+      cases f <;> simp [shipV, encV, decV, fillBits, fillCases, expectV, fillShipped, List.find?]
+    | sc s => simp [typedV, typedS_iface] at ht
+    | _ => simp [typedV] at ht
+  · -- scalar fields
+    simp only [Bool.and_eq_true] at hk
+    cases v with
+    | sc s =>
+      have hts : typedS g s = true := by
+        unfold typedV at ht
+        split at ht <;> first | exact ht | (simp_all)
+      rw [shipV_scalar g pt e d s hk.2 hts]
+      simp [expectV, normV]
+    | _ =>
+      exfalso
+      unfold typedV at ht
+      split at ht <;> simp_all
+
+
+/-! ### rows of the options table -/
+
+/-- a row of `codec_options`: not shipped at all, or written and read under one message field, the
+row being the one writer of that field, in a way `optKindOK` accepts. -/
+def optRowOK (rows : List Row) (r : Row) : Bool :=
+  if r.encWire == "" then r.decWire == "" && decide (r.dec = .none)
+  else
+    r.decWire == r.encWire &&
+    (match rows.find? (fun x => x.encWire == r.decWire) with
+     | some w => w.field == r.field && decide (w.enc = r.enc)
+     | none => false) &&
+    (match ptOfGo optionsTags optionsDesc r.decWire with
+     | some pt => optKindOK r.goT pt (isRepeated optionsTags r.decWire) r.enc r.dec
+     | none => false)
+
+def optExpect (o : Obj) (r : Row) : Val := if r.encWire == "" then vzero r.goT else expectV (o r.field)
+
+theorem shipOptField_ok (rows : List Row) (o : Obj) (r : Row) (hk : optRowOK rows r = true)
+    (ht : r.encWire ≠ "" → typedV r.goT (o r.field) = true) :
+    shipOptField rows o r = some (optExpect o r) ∧ (r.encWire ≠ "" → (wireOfV rows o r.encWire).isSome = true) := by
+  unfold optRowOK at hk
+  by_cases he : r.encWire = ""
+  · simp [he] at hk
+    simp [shipOptField, optExpect, he, hk.1, hk.2]
+  · have he' : (r.encWire == "") = false := by simpa using he
+    simp only [he', Bool.false_eq_true, if_false, Bool.and_eq_true, beq_iff_eq] at hk
+    obtain ⟨⟨hdw, hf⟩, hp⟩ := hk
+    have hdw' : (r.decWire == "") = false := by rw [hdw]; exact he'
+    split at hf
+    · rename_i w hw
+      split at hp
+      · rename_i pt hpt
+        simp only [Bool.and_eq_true, beq_iff_eq, decide_eq_true_eq] at hf
+        have hrt := kind_rt r.goT pt _ r.enc r.dec (o r.field) hp (ht he)
+        unfold shipV at hrt
+        have hwire : wireOfV rows o r.decWire = encV r.enc pt (o r.field) := by
+          simp only [wireOfV, hpt, hw, hf.1, hf.2]
+        constructor
+        · simp only [shipOptField, hdw', Bool.false_eq_true, if_false, hwire, optExpect, he']
+          cases h1 : encV r.enc pt (o r.field) with
+          | none => simp [h1] at hrt
+          | some w' => simp only [h1] at hrt ⊢; exact hrt
+        · intro _
+          rw [← hdw, hwire]
+          cases h1 : encV r.enc pt (o r.field) with
+          | none => simp [h1] at hrt
+          | some w' => simp
+      · simp at hp
+    · simp at hf
+
+theorem shipOptList_ok (all : List Row) (o : Obj) : (rows : List Row) →
+    (∀ r ∈ rows, shipOptField all o r = some (optExpect o r)) →
+    shipOptList all o rows = some (rows.map fun r => (r.field, optExpect o r))
+  | [], _ => rfl
+  | r :: rs, h => by
+    have h1 := h r (by simp)
+    have h2 := shipOptList_ok all o rs (fun x hx => h x (by simp [hx]))
+    simp [shipOptList, h1, h2]
+
+def typedOpts (rows : List Row) (o : Obj) : Bool :=
+  rows.all fun r => r.encWire == "" || typedV r.goT (o r.field)
+
+theorem shipOpts_ok (rows : List Row) (o : Obj) (hall : rows.all (optRowOK rows) = true)
+    (ht : typedOpts rows o = true) :
+    shipOpts rows o = some (rows.map fun r => (r.field, optExpect o r)) := by
+  have hrow : ∀ r ∈ rows, optRowOK rows r = true := fun r hr => (List.all_eq_true.mp hall) r hr
+  have htr : ∀ r ∈ rows, r.encWire ≠ "" → typedV r.goT (o r.field) = true := by
+    intro r hr he
+    have := (List.all_eq_true.mp ht) r hr
+    have he' : (r.encWire == "") = false := by simpa using he
+    simpa [he'] using this
+  have hm : marshalOK rows o = true := by
+    unfold marshalOK
+    apply List.all_eq_true.mpr
+    intro r hr
+    by_cases he : r.encWire = ""
+    · simp [he]
+    · have := (shipOptField_ok rows o r (hrow r hr) (htr r hr)).2 he
+      simp [this]
+  unfold shipOpts
+  rw [hm]
+  simp only [if_true]
+  exact shipOptList_ok rows o rows (fun r hr => (shipOptField_ok rows o r (hrow r hr) (htr r hr)).1)
+
+theorem lookupV_map (o : Obj) (f : String) : (rows : List Row) →
+    lookupV (rows.map fun r => (r.field, optExpect o r)) f =
+      (match rows.find? (fun r => r.field == f) with
+       | some r => some (optExpect o r)
+       | none => none)
+  | [] => rfl
+  | r :: rs => by
+    have ih := lookupV_map o f rs
+    by_cases h : (r.field == f) = true
+    · simp [lookupV, List.find?, h]
+    · have h' : (r.field == f) = false := by simpa using h
+      simp only [lookupV, List.map, List.find?, h'] at ih ⊢
+      exact ih
+
+/-! ## the theorem -/
+
+/-- **every row of the regenerated options table is sound** (kernel evaluation over the table) -/
+theorem options_rows_sound : codec_options.all (optRowOK codec_options) = true := by decide
+
+/-- every field judged relevant is shipped, and by a row that is not the lossy FillValue row -/
+def relevantShipped : Bool :=
+  judgement.all fun p =>
+    match p.2 with
+    | .relevant =>
+      (match codec_options.find? (fun r => r.field == p.1) with
+       | some r => r.encWire != "" && decide (r.goT ≠ .iface)
+       | none => false)
+    | _ => true
+
+theorem relevant_fields_shipped : relevantShipped = true := by decide
+
+
+theorem expectV_of_not_fill (v : Val) (h : ∀ f, v ≠ .fill f) : expectV v = normV v := by
+  cases v <;> first | rfl | (rename_i f; exact absurd rfl (h f))
+
+theorem typedV_fill_iface (g : GoT) (f : FillV) (h : typedV g (.fill f) = true) : g = .iface := by
+  cases g <;> simp [typedV] at h ⊢
+
+/-- **`opts_roundtrip_partial`.** For every options object whose shipped fields hold values of
+their domain (`typedOpts`: integers of the Go type, declared constants of an enumeration, strings
+that are valid UTF-8, a location `LoadLocation` finds again under its name, expressions / sort
+fields whose printed text is read back as themselves, measurements as sources):
+`MarshalBinary` then `UnmarshalBinary` succeeds, **every field judged relevant comes back equal**
+(up to the sub-fields `normV` names: VarRef.Alias, Measurement.Alias / IsSystemStatement / MstType),
+`FillValue` comes back as the float64 `fillShipped` says, and every other field holds the zero value
+of its type. The rows are the regenerated ones: a field encoded in a way the model does not know,
+read from another message field than it was written to, or converted through a type that does not
+hold its values makes `options_rows_sound` fail. -/
+theorem opts_roundtrip_partial (o : Obj) (ht : typedOpts codec_options o = true) :
+    ∃ l, shipOpts codec_options o = some l ∧
+      (∀ f, isRelevant f = true → lookupV l f = some (normV (o f))) := by
+  refine ⟨_, shipOpts_ok codec_options o options_rows_sound ht, ?_⟩
+  · intro f hf
+    rw [lookupV_map]
+    -- the judgement entry of f
+    unfold isRelevant judgementOf at hf
+    split at hf
+    · rename_i j hj
+      split at hj
+      · rename_i p hp
+        simp only [Option.some.injEq] at hj
+        have hpf : p.1 = f := by simpa using List.find?_some hp
+        have hmem : p ∈ judgement := List.mem_of_find?_eq_some hp
+        have hrs := (List.all_eq_true.mp relevant_fields_shipped) p hmem
+        rw [hj] at hrs
+        simp only at hrs
+        rw [hpf] at hrs
+        split at hrs
+        · rename_i r hr
+          simp only [Bool.and_eq_true, bne_iff_ne, ne_eq, decide_eq_true_eq] at hrs
+          have hrf : r.field = f := by simpa using List.find?_some hr
+          have hmr : r ∈ codec_options := List.mem_of_find?_eq_some hr
+          have he' : (r.encWire == "") = false := by simpa using hrs.1
+          have htv := (List.all_eq_true.mp ht) r hmr
+          simp only [he', Bool.false_or] at htv
+          have hnf : ∀ fv, o r.field ≠ .fill fv := by
+            intro fv hfv
+            rw [hfv] at htv
+            exact hrs.2 (typedV_fill_iface _ _ htv)
+          rw [hrf] at hnf
+          simp only [hr, optExpect, he', Bool.false_eq_true, if_false, hrf, expectV_of_not_fill _ hnf]
+        · simp at hrs
+      · simp at hj
+    · simp at hf
+
+/-- what the store holds for FillValue -/
+theorem fillValue_shipped (o : Obj) (ht : typedOpts codec_options o = true) (f : FillV)
+    (hf : o "FillValue" = .fill f) :
+    ∃ l, shipOpts codec_options o = some l ∧ lookupV l "FillValue" = some (.fill (.f64 (fillShipped f))) := by
+  refine ⟨_, shipOpts_ok codec_options o options_rows_sound ht, ?_⟩
+  rw [lookupV_map]
+  have : (match codec_options.find? (fun r => r.field == "FillValue") with
+      | some r => r.encWire != "" && r.field == "FillValue"
+      | none => false) = true := by decide
+  split at this
+  · rename_i r hr
+    simp only [Bool.and_eq_true, bne_iff_ne, ne_eq, beq_iff_eq] at this
+    have he' : (r.encWire == "") = false := by simpa using this.1
+    simp [hr, optExpect, he', this.2, hf, expectV]
+  · simp at this
+
+/-- a field that is not shipped holds the zero value of its type on the store -/
+theorem unshipped_is_zero (o : Obj) (ht : typedOpts codec_options o = true) (f : String) (r : Row)
+    (hr : codec_options.find? (fun r => r.field == f) = some r) (hu : r.encWire = "") :
+    ∃ l, shipOpts codec_options o = some l ∧ lookupV l f = some (vzero r.goT) := by
+  refine ⟨_, shipOpts_ok codec_options o options_rows_sound ht, ?_⟩
+  rw [lookupV_map]
+  simp [hr, optExpect, hu]
+
+/-! ### the full statement is false: three fields the store reads are not shipped, FillValue loses its type -/
+
+/-- "serialising then deserialising yields an equal object", field by field over everything a store reads -/
+def storeReads (f : String) : Bool :=
+  match judgementOf f with
+  | some (.irrelevant _) => false
+  | some _ => true
+  | none => false
+
+def opts_roundtrip_full : Prop :=
+  ∀ o : Obj, typedOpts codec_options o = true →
+    ∃ l, shipOpts codec_options o = some l ∧ ∀ f, storeReads f = true → lookupV l f = some (normV (o f))
+
+def witnessObj : Obj := fun f =>
+  if f = "CompareOffset" then .sc (.int 3600000000000)
+  else
+    match codec_options.find? (fun r => r.field == f) with
+    | some r => vzero r.goT
+    | none => .opaque
+
+theorem witnessObj_typed : typedOpts codec_options witnessObj = true := by decide
+
+theorem witnessObj_shipped :
+    (shipOpts codec_options witnessObj).bind (fun l => lookupV l "CompareOffset") = some (.sc (.int 0)) := by
+  decide
+
+theorem opts_roundtrip_full_false : ¬ opts_roundtrip_full := by
+  intro h
+  obtain ⟨l, hl, hall⟩ := h witnessObj witnessObj_typed
+  have h1 := hall "CompareOffset" (by decide)
+  have h2 := witnessObj_shipped
+  rw [hl] at h2
+  simp only [Option.bind] at h2
+  rw [h1] at h2
+  simp [witnessObj, normV] at h2
+
+/-- the hypotheses of `opts_roundtrip_partial` hold of an object with non-default values in fields of
+every kind (integers at the int64 limits, a negative interval offset, a condition, a time zone, DESC sort
+fields that need quotes, a regex source, an int64 fill value) -/
+def sampleObj : Obj := fun f =>
+  if f = "Name" then .sc (.str [0x63, 0x70, 0x75])
+  else if f = "Limit" then .sc (.int 9223372036854775807)
+  else if f = "Offset" then .sc (.int (-9223372036854775808))
+  else if f = "Ascending" then .sc (.bool true)
+  else if f = "Fill" then .sc (.int 2)
+  else if f = "FillValue" then .fill (.i64 5)
+  else if f = "Interval" then .interval 60000000000 (-1500000)
+  else if f = "Step" then .sc (.int 999999)
+  else if f = "QueryId" then .sc (.int 18446744073709551615)
+  else if f = "IterID" then .sc (.int (-2147483648))
+  else if f = "Dimensions" then .strs [[0x68], []]
+  else if f = "GroupBy" then .keys [[0x68]]
+  else if f = "Location" then .loc (some (.named "Asia/Shanghai".toList))
+  else if f = "Condition" then .expr (some (.binary .and (.binary .gt (.varRef ['a'] .unknown) (.int 1))
+      (.binary .eq (.varRef "my col".toList .unknown) (.str "it's".toList))))
+  else if f = "SortFields" then .sorts [("my col".toList, false), ("host".toList, true)]
+  else if f = "Aux" then .refs [⟨[0x76], 1, [0x61]⟩]
+  else if f = "Sources" then .sources (some [.mst ⟨[0x64], [0x72], [], some [0x5e, 0x61], false, [], true, [0x74], true, some 1, none, 1, [0x67]⟩])
+  else if f = "CompareOffset" then .sc (.int 5)
+  else
+    match codec_options.find? (fun r => r.field == f) with
+    | some r => vzero r.goT
+    | none => .opaque
+
+example : typedOpts codec_options sampleObj = true := by decide
+
 end OG.C12.Wire
